@@ -12,8 +12,10 @@ spec:      spec/DpkgVersion.tla    pure operators over code points: dpkg referen
            spec/DpkgVersionObj.tla object-level layer: object = [full, cached key]; Assign* (full_version /
                                    epoch / upstream_version / debian_revision) recompute the key; KeyFresh,
                                    Agree, HashConsistent in the closed state space; prints MUT lines
-binding:   (a) spec -> code: the CASE lines (a checksum-selected sample of the big configurations,
-               different for every seed, plus ALL pairs of the triples configuration) are replayed into
+binding:   (a) spec -> code: the CASE lines -- ALL 24 025 pairs of part strings of <= 3 characters over
+               0 1 a . ~ (MC_DpkgVersion_exh.cfg), each in upstream AND in revision position (TLC invariant
+               RevPosition), ALL pairs of the triples configuration, and a checksum-selected sample of the big
+               configurations, different for every seed -- are replayed into
                Version(a) < <= == != >= > Version(b), version_compare(a, b) and hash(); each abstract case
                is concretized by order-isomorphic code points (other letters / digits).  Every pair is
                compared TWICE with the other comparisons of its chunk in between, in both operand orders,
@@ -36,13 +38,23 @@ binding:   (a) spec -> code: the CASE lines (a checksum-selected sample of the b
                runs of 1..40 digits with 0..39 leading zeros around 2^31 2^32 2^53 2^63 2^64 10^18 10^19,
                letter runs / '~' chains up to 100, 50+ alternations and long epochs (<= 120 code points,
                validated by TLC directly: the reference compares digit runs as strings)
+           token-prefix family (structured, in the trace leg): x vs x + suffix for every suffix of <= 3 tokens
+               over zero number / non-zero number / letters / '~' / '.' / '+' and 8 prefixes, in upstream and in
+               revision position (one- and two-token suffixes always, three-token ones on a rotating share in quick)
+           REJECTED assignments (object layer Reject*, REJ lines; reject traces): regex-level junk, values of a
+               wrong type, ':' without a numeric epoch, non-numeric epochs, on full_version / epoch /
+               upstream_version / debian_revision: after the refused call the object must print, compare and hash
+               exactly as before (also against a fresh object of its own string) and a later valid assignment
+               must work.  upstream_version = None and debian_revision = "" are unspecified (DESIGN C14) and not used.
            (c) `dpkg --compare-versions` as a second, external oracle on a sample of the recorded pairs
                (thorough: ~5000, quick: a handful); skipped with a note when dpkg is absent
 spec-level negative controls (re-run in every check, TLC must report the violation):
            HashOnString = TRUE  -> HashConsistent violated;  TildeOrderZero = TRUE -> Agree violated;
            StaleKey = TRUE (object layer: the key survives an assignment) -> Agree, HashConsistent violated;
            NoResplit = TRUE (object layer: after a component assignment the recomposed string is not split
-           again: stale components after a boundary move) -> Agree, HashConsistent violated
+           again: stale components after a boundary move) -> Agree, HashConsistent violated;
+           PartialOnReject = TRUE (object layer: a rejected assignment leaves the assigned components
+           behind before it raises) -> Agree, HashConsistent violated
 API surface (notes/API_SURFACE.md): every public way of building, comparing, ordering, hashing and mutating
 versions, and where it is exercised (all in the quick tier, rotating; same TLC verdicts; the objects of
 one chunk / trace come from DIFFERENT variants and are queried through all of them):
@@ -73,6 +85,7 @@ one chunk / trace come from DIFFERENT variants and are queried through all of th
   repr(v)                                                 out of scope of C03 (printing: C14); not a verdict
   v.full_version = / v.epoch = / v.upstream_version = / v.debian_revision = / v.debian_version = (alias)
                                                           MUT replay (all five), trace walk, boundary traces
+  refused assignments on each of the five attributes      REJ replay, reject traces (object unchanged afterwards)
   deprecated camelCase aliases                            none exist for the version API (only for unrelated
                                                           functions of debian_support)
   Version(None) / comparison with None                    out of domain: not a version string
@@ -95,7 +108,7 @@ import core
 
 MANIFEST = dict(
     technique="TLA+ spec over code points (dpkg reference Verrevcmp/DpkgCmp + implementation layer transcribed from NativeVersion + Canon hash-key design + object layer with Assign recomputing the cached key) model-checked by TLC on all pairs/triples up to a bound and on the closed state space of two mutable objects; TLC-emitted cases and assignments replayed into Version/version_compare/hash on long-lived, re-used, mutated objects; recorded comparisons over the full alphabet validated by TLC (TraceDpkgVersion); dpkg --compare-versions as external oracle",
-    text="TLC enumerates every pair of single-component versions up to 3 (thorough 4) characters over 0 1 9 a . ~, every pair of complete versions (4 epochs x 3-6 revisions x upstream <= 2 over 0 1 ~, thorough 0 1 A a + . ~, with ':' and '-' where allowed) and every triple of a smaller universe, and checks that the transcription of NativeVersion's algorithm agrees with dpkg's, that the order is antisymmetric, total and transitive, and that the canonical hash key is exactly the kernel of the order (and that the implementation's key induces the same partition). An object-level layer (object = string + cached key; assignment of full_version or of one component recomputes the key) is explored to a fixed point, so agreement and hash consistency hold after any sequence of assignments. A seed-dependent sample of the enumerated pairs plus all pairs of the small universe is replayed, with order-isomorphic concrete characters, into the six rich comparisons, version_compare and hash(): every pair twice with other comparisons in between, both operand orders, on pooled long-lived objects that meet many partners and are partly re-created, with plain-string operands, and on short-lived temporaries; TLC's assignment transitions are replayed as compare / assign / compare on the same object. Thousands of random and near-equal pairs/triples/quadruples (length up to ~45, leading zeros, '~' chains, epoch 0 vs absent, revision 0 vs absent, epochs beyond 2^32) are executed on the real code the same way, including an object that is walked through every string of the trace by assignment, and each recorded comparison is validated by TLC on the concrete code points of the string the object holds at that moment.",
+    text="TLC enumerates every pair of single-component versions up to 3 (thorough 4) characters over 0 1 9 a . ~, every pair of complete versions (4 epochs x 3-6 revisions x upstream <= 2 over 0 1 ~, thorough 0 1 A a + . ~, with ':' and '-' where allowed) and every triple of a smaller universe, and checks that the transcription of NativeVersion's algorithm agrees with dpkg's, that the order is antisymmetric, total and transitive, and that the canonical hash key is exactly the kernel of the order (and that the implementation's key induces the same partition). An object-level layer (object = string + cached key; assignment of full_version or of one component, boundary-moving values included, recomputes the key from the decomposition of the recomposed string; a refused assignment leaves the object untouched) is explored to a fixed point, so agreement and hash consistency hold after any sequence of accepted and refused assignments. All 24 025 pairs of part strings up to 3 characters over 0 1 a . ~ are replayed in upstream and in revision position; a seed-dependent sample of the larger enumerations plus all pairs of the small universe is replayed, with order-isomorphic concrete characters, into the six rich comparisons, version_compare and hash(): every pair twice with other comparisons in between, both operand orders, on pooled long-lived objects that meet many partners and are partly re-created, with plain-string operands, and on short-lived temporaries; TLC's assignment transitions are replayed as compare / assign / compare on the same object. Thousands of random and near-equal pairs/triples/quadruples (length up to ~45, leading zeros, '~' chains, epoch 0 vs absent, revision 0 vs absent, epochs beyond 2^32) are executed on the real code the same way, including an object that is walked through every string of the trace by assignment, and each recorded comparison is validated by TLC on the concrete code points of the string the object holds at that moment.",
     note="Small-scope for the exhaustive part (alphabet of 7-8 code points, bounded length; object layer: 48/80 versions, one mutated object); payload beyond it is sampled. Numbers are compared as digit strings in the reference (TLC integers are 32 bit); the implementation layer's int() is only model-checked on short runs. Trusted: TLC, the order-isomorphic concretizer, the observation wrapper, dpkg where present. Hash collisions of unequal versions are not a violation; an assignment that fails or recomposes another string (C14) only skips the dependent comparisons. Spec-level negative controls (HashOnString, TildeOrderZero, StaleKey) and corrupted control traces are required to fail in every run.",
     design="5 (C03)")
 
@@ -402,7 +415,7 @@ def cfg_text(name, **subst):
 
 def design_run(ctx, name, stride, offset, module="DpkgVersionMC", tag="CASE"):
     r = ctx.tlc_must_hold(module, cfg_text(name, EmitStride=stride, EmitOffset=offset), workers=WORKERS,
-                          java_opts=JAVA_SHORT if ctx.tier == "quick" else JAVA, want_tags={tag, "OPS"})
+                          java_opts=JAVA_SHORT if ctx.tier == "quick" else JAVA, want_tags={tag, "OPS", "REJ"})
     cases = [tuple(map(_freeze, c)) for c in r.printed.get(tag, [])]
     cases = sorted(set(cases))                       # the workers print in no fixed order
     ops = {row["cmp"]: row for row in r.printed.get("OPS", [])}
@@ -424,6 +437,8 @@ CONTROLS = (   # (module, cfg, switch, the only invariant kept, ...)
     ("DpkgVersionObj", "MC_DpkgVersion_obj_control.cfg", "StaleKey", "HashConsistent"),
     ("DpkgVersionObj", "MC_DpkgVersion_obj_control.cfg", "NoResplit", "Agree"),
     ("DpkgVersionObj", "MC_DpkgVersion_obj_control.cfg", "NoResplit", "HashConsistent"),
+    ("DpkgVersionObj", "MC_DpkgVersion_obj_control.cfg", "PartialOnReject", "Agree"),
+    ("DpkgVersionObj", "MC_DpkgVersion_obj_control.cfg", "PartialOnReject", "HashConsistent"),
 )
 
 
@@ -438,8 +453,8 @@ def negative_controls(ctx):
         txt = "\n".join(l for l in txt.splitlines() if not l.startswith("INVARIANT") or l.split()[1] == inv)
         return core.run_tlc(module, txt, ctx.work, workers=1, java_opts=JAVA_SHORT, want_tags=set(), timeout=600)
 
-    # quick: one control per module, rotating with the seed; thorough: all six
-    todo = CONTROLS if ctx.tier != "quick" else (CONTROLS[ctx.seed % 2], CONTROLS[2 + ctx.seed % 4])
+    # quick: one control per module, rotating with the seed; thorough: all eight
+    todo = CONTROLS if ctx.tier != "quick" else (CONTROLS[ctx.seed % 2], CONTROLS[2 + ctx.seed % 6])
     with ThreadPoolExecutor(max_workers=len(todo)) as ex:
         results = list(ex.map(one, todo))
     out = {}
@@ -503,6 +518,45 @@ def replay_cases(ctx, cases, ops, nconc, label):
     return n, per_sign
 
 
+def replay_exhaustive(ctx, cases, ops, label):
+    """ALL pairs of the exhaustive configuration, each once, in upstream position (a vs b) and in
+    revision position ("1-a" vs "1-b": TLC's invariant RevPosition says the sign and the hash-key
+    equality are the same), on pooled objects from rotating constructors: forward with
+    version_compare and hash, reversed operators.  Canonical and order-isomorphic characters alternate."""
+    rng = ctx.rng
+    n = 0
+    per_sign = {-1: 0, 0: 0, 1: 0}
+    for c0 in range(0, len(cases), 4 * CHUNK):
+        if len(ctx.violations) >= ctx.max_violation_files:
+            break
+        pool = Pool()
+        for idx, (a, b, s, h, rv) in enumerate(cases[c0:c0 + 4 * CHUNK]):
+            per_sign[s] += 1
+            ctx.case_seen((a, b), a != b)
+            sa, sb = concretize(rng, [a, b], canonical=(idx % 2 == 0))
+            for pa, pb, where in ((sa, sb, "upstream position"), ("1-" + sa, "1-" + sb, "revision position")):
+                oa, ob = pool.get(pa), pool.get(pb)
+                n += 1
+                obs = observe_pair(oa, ob, oa, ob)
+                msg = judge(obs, ops[s], h)
+                if not msg:
+                    obs = observe_pair(ob, oa, ob, oa, cmp=False)
+                    msg = judge(obs, ops[rv], h)
+                    where += ", operands swapped"
+                if msg:
+                    ctx.violation({"kind": "case", "abstract": [text(a), text(b)], "a": pa, "b": pb,
+                                   "expected_ops": ops[s], "expected_ops_reversed": ops[rv], "expected_hash_equal": h,
+                                   "where": where, "observed": obs, "config": label},
+                                  "Version(%r) vs Version(%r) (%s, every pair of the exhaustive configuration): %s"
+                                  % (pa, pb, where, msg))
+                    break
+            if len(ctx.violations) >= ctx.max_violation_files:
+                break
+    mid = cases[len(cases) // 2]
+    ctx.sample("%s case: %r vs %r -> sign %d (also as '1-%s' vs '1-%s')" % (label, text(mid[0]), text(mid[1]), mid[2], text(mid[0]), text(mid[1])))
+    return n, per_sign
+
+
 # ------------------------------------------------------------------ replay of TLC's assignments (object layer)
 
 def split(s):
@@ -520,14 +574,14 @@ def assign(obj, how, value, alias=False):
     if how == "full":
         obj.full_version = value
     elif how == "epoch":
-        obj.epoch = value or None
+        obj.epoch = None if value == "" else value          # "" stands for None in TLC's lines
     elif how == "upstream":
         obj.upstream_version = value
     elif how == "revision":
         if alias:
-            obj.debian_version = value or None
+            obj.debian_version = None if value == "" else value
         else:
-            obj.debian_revision = value or None
+            obj.debian_revision = None if value == "" else value
     else:                       # "parts": reach the string `value` by component assignments only; the
         e2, u2, r2 = split(value)   # order keeps every intermediate string valid (':' / '-' in the upstream
         if e2 is not None:          # part need an epoch / a revision): grow, replace upstream, shrink
@@ -577,6 +631,88 @@ def run_mut(pool, sv, how, exp0, exp1, k):
     if bad:
         return "bad", bad
     return "ok", None
+
+
+def junk_value(k):
+    """what the model's foreign character stands for: a value whose str() is no version"""
+    return [" ", "1 0", "x_y", [], b"1.0", ("1", "0"), {"1.0"}][k % 7]
+
+
+def run_rej(pool, sv, how, exp, eq_row, k):
+    """REJ line: a holds sv[0]; the assignment of sv[2] must be refused and leave a exactly as it was.
+    Returns ("ok" | "skip" | "bad", detail)"""
+    s1, s2, arg = sv
+    a = make_obj(s1, k)
+    b = pool.get(s2)
+    value = junk_value(k) if arg == " " else arg
+
+    def look(x, y, sx, exp, stage, first=True):
+        fwd, rev, heq = exp
+        todo = [("a <op> b", lambda: observe_pair(x, y, x, y, cmp=first), fwd),
+                ("b <op> a", lambda: observe_pair(y, x, y, x, cmp=False), rev)]
+        for where, f, e in todo:
+            obs = f()
+            msg = judge(obs, e, heq)
+            if msg:
+                return "%s, %s" % (where, stage), obs, msg
+        return None
+
+    bad = look(a, b, s1, exp, "before the rejected assignment")
+    if bad:
+        return "bad", bad
+    try:
+        assign(a, how, value, alias=(k % 2 == 1))
+        return "skip", "assignment %s=%r on Version(%r) was accepted (-> %r): C14's subject" % (how, value, s1, str(a))
+    except Exception:                      # noqa: which exception is C14's subject
+        pass
+    if str(a) != s1:
+        return "bad", ("str(a) after the rejected assignment", {"str": str(a)},
+                       "the object prints %r, it printed %r before the rejected assignment" % (str(a), s1))
+    same = (eq_row, eq_row, True)
+    bad = (look(a, b, s1, exp, "AFTER the rejected assignment") or look(a, b, s1, exp, "AFTER the rejected assignment, second time", False)
+           or look(a, fresh(s1), s1, same, "AFTER the rejected assignment, b = a fresh object of a's own string"))
+    if bad:
+        return "bad", bad
+    try:
+        a.full_version = s2
+    except Exception as e:
+        return "bad", ("a.full_version = %r after the rejected assignment" % s2, {"exc": type(e).__name__},
+                       "a later VALID assignment raised %s: %s" % (type(e).__name__, e))
+    bad = look(a, b, s2, same, "after a later valid assignment a.full_version = str(b)")
+    if bad:
+        return "bad", bad
+    return "ok", None
+
+
+def replay_rejs(ctx, rejs, ops):
+    rng = ctx.rng
+    n = 0
+    per_how = {}
+    pool = Pool()
+    for idx, m in enumerate(rejs):
+        if len(ctx.violations) >= ctx.max_violation_files:
+            break
+        v1, v2, how, arg, ref0, rev0, ceq0 = m
+        per_how[how] = per_how.get(how, 0) + 1
+        ctx.case_seen(("rej", v1, v2, how, arg), True)
+        if idx % CHUNK == CHUNK - 1:
+            pool.churn(rng)
+        sv = concretize(rng, [v1, v2, arg], canonical=(idx % 2 == 0))
+        n += 1
+        st, detail = run_rej(pool, sv, how, (ops[ref0], ops[rev0], ceq0), ops[0], idx)
+        if st == "skip":
+            ctx.drift(detail)
+        elif st == "bad":
+            where, obs, msg = detail
+            ctx.violation({"kind": "rej", "strings": sv, "how": how, "k": idx, "expected": (ops[ref0], ops[rev0], ceq0),
+                           "equal_row": ops[0], "where": where, "observed": obs},
+                          "a=Version(%r), b=Version(%r); REJECTED assignment a.%s = %r: %s: %s"
+                          % (sv[0], sv[1], how, junk_value(idx) if sv[2] == " " else sv[2], where, msg))
+    if rejs:
+        m = rejs[len(rejs) // 2]
+        ctx.sample("obj case: Version(%r).%s = %r is refused; the object still compares with %r as before (sign %d)" % (
+            text(m[0]), m[2], text(m[3]), text(m[1]), m[4]))
+    return n, per_how
 
 
 def replay_muts(ctx, muts, ops, nconc):
@@ -985,7 +1121,122 @@ def record_boundary(v, partner, op, salt):
             "coll": collect([old, pp, obj], strs)}
 
 
-def make_traces(rng, n):
+def record_pair(a, b, salt):
+    """a light trace [a, b]: objects from two rotating constructors, both operand orders, one more
+    operand form, the collection-level entry points"""
+    oa, ob = make_obj(a, salt), make_obj(b, salt + 1 + len(b))
+    events = [_event(0, 1, observe_pair(oa, ob, oa, ob), "objects"),
+              _event(1, 0, observe_pair(ob, oa, ob, oa), "objects")]
+    k = salt % 4
+    if k == 0:
+        events.append(_event(0, 1, observe(a, b), "fresh temporaries"))
+    elif k == 1:
+        events.append(_event(0, 1, observe_pair(oa, b, oa, ob), "Version <op> str"))
+    elif k == 2:
+        events.append(_event(1, 0, observe_pair(b, oa, ob, oa), "str <op> Version"))
+    else:
+        events.append(_event(0, 1, observe_pair(oa, _base(b), oa, ob), "Version <op> BaseVersion"))
+    return {"vs": [cps(a), cps(b)], "strs": [a, b], "events": events, "notes": [], "light": salt,
+            "coll": collect([oa, ob], [a, b])}
+
+
+TOKENS = (("0", "00", "000"), ("1", "7", "10"), ("a", "rc", "Z"), ("~",), (".",), ("+",))
+PREFIXES = ("a", "1a", "1.0rc", "1.", "1~", "1+", "2.0", "0")
+
+
+def prefix_family(rng, share):
+    """x  vs  x + suffix  for every suffix of <= 3 tokens over (zero number, non-zero number, letters,
+    '~', '.', '+'), in upstream and in revision position: one part is a token-wise prefix of the
+    other.  Suffixes of one and two tokens always, those of three tokens with probability `share`."""
+    import itertools
+    out = []
+    k = 0
+    for ntok in (1, 2, 3):
+        for classes in itertools.product(range(len(TOKENS)), repeat=ntok):
+            for x in PREFIXES:
+                if ntok == 3 and rng.random() >= share:
+                    continue
+                k += 1
+                suffix = "".join(TOKENS[c][(k + i) % len(TOKENS[c])] for i, c in enumerate(classes))
+                a, b = x, x + suffix
+                form = k % 4
+                if form == 1:
+                    a, b = "3-" + a, "3-" + b                      # revision position
+                elif form == 2:
+                    a, b = "1:" + a + "-1", "1:" + b + "-1"        # upstream, with epoch and revision
+                elif form == 3:
+                    a, b = "0.5-" + a, "0.5-" + b
+                out.append((a, b) if k % 2 else (b, a))
+    return out
+
+
+REJECT_VALUES = {
+    "full": ["", "{v} ", "{v}_", "x:{v}", [], b"1.0", ("1", "0")],
+    "epoch": ["x", "1a", " ", "~", [], "1.0", b"1"],
+    "upstream": ["a b", "x_y", "x:y", "\u00e9", [], "1 "],
+    "revision": ["a b", "x_y", "1 ", [], "\u0663"],
+}
+
+
+def unspec(v):
+    """D2's unspecified zone (a filter for generated inputs, as in_domain)"""
+    if "-" not in v:
+        return False
+    head, tail = v.rsplit("-", 1)
+    m = re.match("[0-9]+:", head)
+    if m:
+        head = head[m.end():]
+    return tail == "" or ":" in tail or head == ""
+
+
+def record_reject(v, partner, how, salt):
+    """a trace [v, partner]: an object holding v is compared, then an assignment that must be REFUSED
+    is attempted (regex-level junk, wrong type, ':' without a numeric epoch, non-numeric epoch), then
+    it is compared again -- it must be exactly what it was, also against a fresh object of its own
+    string -- then a valid assignment (full_version = partner) must work.  None: not applicable /
+    the code accepts the value (C14's subject)."""
+    ep, up, rev = split(v)
+    value = REJECT_VALUES[how][salt % len(REJECT_VALUES[how])]
+    if isinstance(value, str):
+        value = value.replace("{v}", v)
+        # what the object would print; only clear rejects (invalid and outside the unspecified zone)
+        target = {"full": value, "epoch": join([value, up, rev]), "upstream": join([ep, value, rev]),
+                  "revision": join([ep, up, value])}[how]
+        if in_domain(target) or unspec(target) or (how == "full" and ep is not None and value.startswith("x:")):
+            return None
+    obj, pp = make_obj(v, salt + len(v)), make_obj(partner, salt + 2)
+    events = []
+
+    def ev(i, j, L, R, src, hl=None, hr=None):
+        events.append(_event(i, j, observe_pair(L, R, hl or L, hr or R), src))
+
+    ev(0, 1, obj, pp, "object before the rejected assignment")
+    ev(1, 0, pp, obj, "object before the rejected assignment")
+    try:
+        assign(obj, how, value)
+        return None
+    except Exception:                      # noqa
+        pass
+    src = "object after the REJECTED %s = %r" % (how, value)
+    if str(obj) != v:
+        events.append(_event(0, 0, {"exc": "prints %r after the rejected assignment" % str(obj)}, src))
+    ev(0, 1, obj, pp, src)
+    ev(1, 0, pp, obj, src)
+    ev(0, 0, obj, fresh(v), src + " <op> fresh object of its own string")
+    ev(0, 0, fresh(v), obj, "fresh object of its own string <op> " + src)
+    ev(0, 1, obj, partner, src + " <op> str", obj, pp)
+    try:
+        obj.full_version = partner
+    except Exception as e:                 # noqa
+        events.append(_event(1, 1, {"exc": "a later valid assignment raised %s" % type(e).__name__}, src))
+    ev(1, 1, obj, pp, "object after a later valid assignment")
+    ev(1, 0, obj, fresh(v), "object after a later valid assignment")
+    strs = [v, partner]
+    return {"vs": [cps(x) for x in strs], "strs": strs, "events": events, "notes": [], "rej": [how, salt],
+            "coll": collect([fresh(v), pp], strs)}
+
+
+def make_traces(rng, n, family_share=0.34):
     traces = []
     for t in range(n):
         big = t % 4 == 3                                 # every fourth trace is size-stressed
@@ -1021,6 +1272,13 @@ def make_traces(rng, n):
             b = record_boundary(v, partner, op, t)
             if b:
                 traces.append(b)
+        # rejected assignments: one attribute per trace, rotating
+        b = record_reject(v, partner, ("full", "epoch", "upstream", "revision")[t % 4], t // 4)
+        if b:
+            traces.append(b)
+    # the token-prefix family (structured, not random)
+    for k, (x, y) in enumerate(prefix_family(rng, family_share)):
+        traces.append(record_pair(x, y, k))
     return traces
 
 
@@ -1164,10 +1422,10 @@ def run(ctx):
     negative_controls(ctx)
 
     # 2. design: bounded-exhaustive configurations; the same runs emit the cases to replay
-    plan = ([("MC_DpkgVersion_parts.cfg", 24), ("MC_DpkgVersion_full.cfg", 40), ("MC_DpkgVersion_triples.cfg", 1)]
+    plan = ([("MC_DpkgVersion_exh.cfg", 1), ("MC_DpkgVersion_full.cfg", 16), ("MC_DpkgVersion_triples.cfg", 1)]
             if quick else
-            [("MC_DpkgVersion_parts_thorough.cfg", 100), ("MC_DpkgVersion_full_thorough.cfg", 150),
-             ("MC_DpkgVersion_triples_thorough.cfg", 1)])
+            [("MC_DpkgVersion_exh.cfg", 1), ("MC_DpkgVersion_parts_thorough.cfg", 100),
+             ("MC_DpkgVersion_full_thorough.cfg", 150), ("MC_DpkgVersion_triples_thorough.cfg", 1)])
     nconc = 1 if quick else 2      # 1: canonical and random concretizations alternate
     replayed = 0
     ctx.extra["configs"] = {}
@@ -1180,7 +1438,11 @@ def run(ctx):
     for name, stride in plan:
         offset = rng.randrange(stride)
         r, cases, ops = design_run(ctx, name, stride, offset)
-        n, per_sign = replay_cases(ctx, cases, ops, nconc, name[len("MC_DpkgVersion_"):-len(".cfg")])
+        label = name[len("MC_DpkgVersion_"):-len(".cfg")]
+        if label == "exh":
+            n, per_sign = replay_exhaustive(ctx, cases, ops, label)
+        else:
+            n, per_sign = replay_cases(ctx, cases, ops, nconc, label)
         replayed += n
         nv = next(k for k in range(1, 100000) if k + k * k + (k ** 3 if r.depth == 3 else 0) >= r.distinct)
         note(name, r, stride, offset, versions=nv,
@@ -1188,18 +1450,24 @@ def run(ctx):
              cases_per_sign={str(k): v for k, v in per_sign.items()}, pair_visits=n)
 
     # 2b. object layer: closed state space of two mutable objects; assignments replayed
-    name, stride = ("MC_DpkgVersion_obj.cfg", 2) if quick else ("MC_DpkgVersion_obj_thorough.cfg", 8)
+    name, stride = ("MC_DpkgVersion_obj.cfg", 3) if quick else ("MC_DpkgVersion_obj_thorough.cfg", 8)
     offset = rng.randrange(stride)
     r, muts, ops = design_run(ctx, name, stride, offset, module="DpkgVersionObj", tag="MUT")
     n, per_how = replay_muts(ctx, muts, ops, nconc)
     replayed += n
-    note(name, r, stride, offset, assignments_replayed=n, mut_lines=len(muts), mut_lines_per_action=per_how)
+    rejs = sorted(set(tuple(map(_freeze, c)) for c in r.printed.get("REJ", [])))
+    if not rejs:
+        raise core.MachineryError("%s emitted no REJ line" % name)
+    n2, per_how2 = replay_rejs(ctx, rejs, ops)
+    replayed += n2
+    note(name, r, stride, offset, assignments_replayed=n, mut_lines=len(muts), mut_lines_per_action=per_how,
+         rejected_assignments_replayed=n2, rej_lines_per_action=per_how2)
     ctx.extra["ops_table_from_tlc"] = {str(k): v for k, v in ops.items()}
     ctx.extra["behaviours_replayed"] = replayed
 
     # 3. code -> spec: recorded comparisons validated by TLC on the concrete code points
-    ntr = 400 if quick else 5000
-    traces = make_traces(rng, ntr)
+    ntr = 250 if quick else 4000
+    traces = make_traces(rng, ntr, family_share=0.2 if quick else 1.0)
     nev = sum(len(t["events"]) for t in traces)
     bad, nrej = validate(ctx, traces)
     ctx.traces += replayed + len(traces)
@@ -1212,6 +1480,7 @@ def run(ctx):
     for t in traces:
         for e in t["events"]:
             k = re.sub(r" \((full|parts)\)", "", e["src"])
+            k = re.sub(r"the REJECTED \w+ = .*?(?= <op>|$)", "a rejected assignment", k)
             for op in BOUNDARY_OPS:
                 k = k.replace(op, "a boundary-moving assignment")
             srcs[k] = srcs.get(k, 0) + 1
@@ -1222,6 +1491,8 @@ def run(ctx):
         if t.get("bop"):
             bops[t["bop"][0]] = bops.get(t["bop"][0], 0) + 1
     ctx.extra["boundary_moving_assignments_recorded"] = bops
+    ctx.extra["rejected_assignments_recorded"] = sum(1 for t in traces if t.get("rej"))
+    ctx.extra["prefix_family_pairs_recorded"] = sum(1 for t in traces if t.get("light") is not None)
     ctx.extra["traces"] = {"recorded": len(traces), "comparisons": nev, "rejected": nrej, "comparisons_per_source": srcs,
                            "assignments_not_completed": sum(1 for t in traces if t["notes"]),
                            "equal_pairs_with_different_spelling": eqpairs,
@@ -1236,12 +1507,12 @@ def run(ctx):
         t = traces[i]
         e = t["events"][at] if at < len(t["events"]) else None
         if e is None:        # every comparison explained, the collection-level observations are not
-            ctx.violation({"kind": "trace", "strs": t["strs"], "bop": t.get("bop"), "coll": t["coll"]},
+            ctx.violation({"kind": "trace", "strs": t["strs"], "bop": t.get("bop"), "rej": t.get("rej"), "light": t.get("light"), "coll": t["coll"]},
                           "sorted / min / max / set / list.index / Changelog lookup over objects holding %r (positions "
                           "1..%d) not explained by the dpkg reference: observed %r" % (t["strs"], len(t["strs"]), t["coll"]))
             continue
         where = "%r vs %r [%s]" % (t["strs"][e["i"] - 1], t["strs"][e["j"] - 1], e["src"])
-        ctx.violation({"kind": "trace", "strs": t["strs"], "bop": t.get("bop"), "first_unexplained_event": at + 1, "event": e},
+        ctx.violation({"kind": "trace", "strs": t["strs"], "bop": t.get("bop"), "rej": t.get("rej"), "light": t.get("light"), "first_unexplained_event": at + 1, "event": e},
                       "recorded comparison not explained by the dpkg reference (DpkgVersion.tla): %s observed %r"
                       % (where, {k: v for k, v in e.items() if k not in ("i", "j", "src")}))
     ctx.extra["objects_per_constructor"] = dict(CONSTRUCTED)
@@ -1263,6 +1534,12 @@ def replay(ctx, case):
                     return "%s: %s" % (bad[0], bad[2])
             pool.churn(random.Random(rnd))
         return None
+    if kind == "rej":
+        for k in range(case["k"], case["k"] + 7):
+            st, detail = run_rej(Pool(), case["strings"], case["how"], tuple(case["expected"]), case["equal_row"], k)
+            if st == "bad":
+                return "%s: %s" % (detail[0], detail[2])
+        return None
     if kind == "mut":
         for k in range(6):
             st, detail = run_mut(Pool(), case["strings"], case["how"], tuple(case["expected_before"]),
@@ -1271,7 +1548,13 @@ def replay(ctx, case):
                 return "%s: %s" % (detail[0], detail[2])
         return None
     if kind == "trace":
-        if case.get("bop"):
+        if case.get("rej"):
+            t = record_reject(case["strs"][0], case["strs"][1], case["rej"][0], case["rej"][1])
+            if t is None:
+                return None
+        elif case.get("light") is not None:
+            t = record_pair(case["strs"][0], case["strs"][1], case["light"])
+        elif case.get("bop"):
             t = record_boundary(case["strs"][0], case["strs"][1], case["bop"][0], case["bop"][1])
             if t is None:
                 return None
